@@ -3,7 +3,9 @@ open Glue
 
 (* image argument: "-" = no volume; otherwise volumes separated by '/', files by ',',
    a file is guid.type.size[.ui] (hex) optionally followed by <volumes>, the nested
-   volumes of the file; an empty volume is the empty string.
+   volumes of the file ({volumes} and (volumes) are the same to the model: the executor
+   wraps the FV-image sections in a GUID-defined / a compression + GUID-defined section);
+   an empty volume is the empty string.
    File objects get the identities 0,1,2,... in pre-order. *)
 let parse_img (s : string) : image * z =
   if s = "-" then ([], Z0) else begin
@@ -18,7 +20,7 @@ let parse_img (s : string) : image * z =
       | _ -> [v]
     and vol () : file list =
       match peek () with
-      | None | Some '/' | Some '>' -> []
+      | None | Some ('/' | '>' | '}' | ')') -> []
       | _ ->
         let f = file () in
         (match peek () with
@@ -31,12 +33,13 @@ let parse_img (s : string) : image * z =
        | _ -> [f])
     and file () : file =
       let start = !pos in
-      while (match peek () with Some (',' | '/' | '<' | '>') | None -> false | _ -> true) do incr pos done;
+      while (match peek () with Some (',' | '/' | '<' | '>' | '{' | '}' | '(' | ')') | None -> false | _ -> true) do incr pos done;
       let hd = String.sub s start (!pos - start) in
       let id = !n in incr n;
       let kids = (match peek () with
-          | Some '<' -> incr pos; let k = vols () in
-            (match peek () with Some '>' -> incr pos | _ -> failwith "missing >"); k
+          | Some ('<' | '{' | '(' as o) -> incr pos; let k = vols () in
+            let cl = (match o with '<' -> '>' | '{' -> '}' | _ -> ')') in
+            (match peek () with Some c when c = cl -> incr pos | _ -> failwith "missing closing bracket"); k
           | _ -> []) in
       match String.split_on_char '.' hd with
       | g :: t :: sz :: rest ->
@@ -55,14 +58,15 @@ let parse_img (s : string) : image * z =
   end
 
 (* the root handed to the visitors: no prefix = a region holding the volumes; "V!" the
-   single volume itself; "S!" a section holding the volumes; "F!" a file (the image is
+   single volume itself; "S!" a section holding the volumes; "I!" a flash image whose BIOS
+   region holds the volumes (between padding elements); "F!" a file (the image is
    then what is nested in it).  Remove.Visit and Find.Visit only descend through anything
    that is not a volume / file, so the model's image is the list of volumes below the root. *)
 let parse_root (s : string) : image * z =
   if String.length s >= 2 && s.[1] = '!' then begin
     let rest = String.sub s 2 (String.length s - 2) in
     match s.[0] with
-    | 'V' | 'S' -> parse_img rest
+    | 'V' | 'S' | 'I' -> parse_img rest
     | 'F' -> (match parse_img rest with
         | ([[f]], nx) -> (f.f_kids, nx)
         | _ -> failwith "F! needs one file")
